@@ -275,6 +275,24 @@ func ruleR02b(c *Ctx) {
 			var helperCall *ssa.Call
 			var helperMach ssa.Value // the machine value inside the helper
 			helperMachIdx := -1
+			// pure builder: `Lock(ctx, accountsToLock(involvedAccounts, involvedSources))` — the literal is in the
+			// builder, its fields derive from the builder's parameters, i.e. from the arguments of the call
+			var builderCall *ssa.Call
+			if cell == nil {
+				if bc, ok := arg.(*ssa.Call); ok {
+					if h := staticCallee(bc); h != nil && inRepo(fnPkgPath(h)) && len(h.Blocks) > 0 {
+						for _, b := range h.Blocks {
+							if ret, ok := b.Instrs[len(b.Instrs)-1].(*ssa.Return); ok && len(ret.Results) == 1 {
+								if u, ok := ret.Results[0].(*ssa.UnOp); ok && u.Op == token.MUL {
+									if a, ok := u.X.(*ssa.Alloc); ok {
+										cell, builderCall = a, bc
+									}
+								}
+							}
+						}
+					}
+				}
+			}
 			if cell == nil {
 				if ex, ok := arg.(*ssa.Extract); ok {
 					if hc, ok := ex.Tuple.(*ssa.Call); ok {
@@ -329,6 +347,19 @@ func ruleR02b(c *Ctx) {
 					return
 				}
 				rs := roots(v, filterPass)
+				if builderCall != nil {
+					var sub []ssa.Value
+					for _, r := range rs {
+						if p, ok := r.(*ssa.Parameter); ok {
+							if i := paramIndex(p); i >= 0 && i < len(builderCall.Call.Args) {
+								sub = append(sub, roots(builderCall.Call.Args[i], filterPass)...)
+								continue
+							}
+						}
+						sub = append(sub, r)
+					}
+					rs = sub
+				}
 				okAll := len(rs) > 0
 				var rr *ssa.Call
 				for _, r := range rs {
